@@ -602,6 +602,9 @@ class MemFs(VirtualFilestore):
             pts += [_z(j) for j in self.w.corrupt_points]
             oks = [z3.Implies(z3.And(0 <= p, p < n), z3.And(p < end, self.byte_term(k, p) == C(0, p)))
                    for p in pts]
+            if self.w.nonzero_source:
+                # a hole (reads as zero) is distinguishable from the source at the instantiated points
+                cons.extend(z3.Implies(z3.And(0 <= p, p < n), C(0, p) != ZERO8) for p in pts)
             for m in self.w.hs_claims:
                 cons.append(z3.Implies(h == Hs(ct, m), z3.And(n == m, end >= n, *oks)))
         self.cks_calls.append({"h": h, "n": n, "upto": upto, "path": k})
@@ -743,7 +746,7 @@ class FH(DefaultFaultHandlerBase):
 class World:
     cur = None
 
-    def __init__(self, ctx, injective=False):
+    def __init__(self, ctx, injective=False, nonzero_source=False):
         self.ctx = ctx
         self.sym = ctx.mode == "sym"
         self.mode = ctx.mode
@@ -754,6 +757,7 @@ class World:
         self.host_access = []
         self.witness = None
         self.injective = injective
+        self.nonzero_source = nonzero_source
         self.hs_args = []
         self.hs_claims = []  # sizes m for which a peer claimed checksum Hs(m)
         self._src = None
